@@ -47,7 +47,7 @@ PROPS = {
             algo("AddSub.tla", "AddSub_q.cfg"), algo("AddSub.tla", "AddSub_cal_no_propagate.cfg", expect="violation"),
             algo("AddSub.tla", "AddSub_cal_no_push.cfg", expect="violation"), algo("AddSub.tla", "AddSub_cal_borrow_only.cfg", expect="violation"),
             algo("AddSub.tla", "AddSub_t1.cfg", workers=14, tiers=T), algo("AddSub.tla", "AddSub_t2.cfg", workers=14, heap="10g", tiers=T)],
-        "drivers": [drv("matrix", "debug", shards={"quick": 8, "thorough": 14}, env={"HARNESS_SAMPLE": "2"}, tiers=Q), drv("matrix", "debug", tiers=T), drv("addsub", "debug"), drv("addsub", "release", tiers=T)],
+        "drivers": [drv("matrix", "debug", shards={"quick": 8, "thorough": 14}, env={"HARNESS_SAMPLE": "2"}, tiers=Q), drv("matrix", "debug", tiers=T), drv("addsub", "debug"), drv("addsub", "release", tiers=T), drv("addsub", "debug", shards={"quick": 6, "thorough": 10}, env={"HARNESS_ROOMY": "1", "HARNESS_SAMPLE": "2"})],
     },
     "C02": {
         "mc": L0_QUICK + L0_THOROUGH + [
@@ -55,14 +55,14 @@ PROPS = {
             algo("Mac3.tla", "Mac3_cal2.cfg", expect="violation"),
             algo("Mac3.tla", "Mac3_t1.cfg", workers=14, tiers=T), algo("Mac3.tla", "Mac3_t2.cfg", workers=14, heap="12g", tiers=T),
             algo("Mac3.tla", "Mac3_t3.cfg", workers=14, heap="12g", tiers=T)],
-        "drivers": [drv("matrix", "debug", shards={"quick": 8, "thorough": 14}, env={"HARNESS_SAMPLE": "2"}, tiers=Q), drv("matrix", "debug", tiers=T), drv("mul", "debug"), drv("mul", "release", tiers=T)],
+        "drivers": [drv("matrix", "debug", shards={"quick": 8, "thorough": 14}, env={"HARNESS_SAMPLE": "2"}, tiers=Q), drv("matrix", "debug", tiers=T), drv("mul", "debug"), drv("mul", "release", tiers=T), drv("mul", "debug", shards={"quick": 6, "thorough": 10}, env={"HARNESS_ROOMY": "1", "HARNESS_SAMPLE": "2"})],
     },
     "C03": {
         "mc": L0_QUICK + L0_THOROUGH + [
             algo("KnuthD.tla", "KnuthD_b4.cfg"), algo("KnuthD.tla", "KnuthD_b8s.cfg"),
             algo("KnuthD.tla", "KnuthD_b4_cal1.cfg", expect="violation"), algo("KnuthD.tla", "KnuthD_b4_cal2.cfg", expect="violation"),
             algo("KnuthD.tla", "KnuthD_b8.cfg", workers=14, heap="12g", tiers=T)],
-        "drivers": [drv("matrix", "debug", shards={"quick": 8, "thorough": 14}, env={"HARNESS_SAMPLE": "2"}, tiers=Q), drv("matrix", "debug", tiers=T), drv("div", "debug"), drv("div", "release", tiers=T)],
+        "drivers": [drv("matrix", "debug", shards={"quick": 8, "thorough": 14}, env={"HARNESS_SAMPLE": "2"}, tiers=Q), drv("matrix", "debug", tiers=T), drv("div", "debug"), drv("div", "release", tiers=T), drv("div", "debug", shards={"quick": 6, "thorough": 10}, env={"HARNESS_ROOMY": "1", "HARNESS_SAMPLE": "3"})],
     },
     "C07": {
         "mc": L0_QUICK + L0_THOROUGH + [
@@ -70,7 +70,7 @@ PROPS = {
             algo("BitOps.tla", "BitOps_t.cfg", workers=14, tiers=T),
             algo("ShiftBits.tla", "ShiftBits_q.cfg"), algo("ShiftBits.tla", "ShiftBits_cal1.cfg", expect="violation"),
             algo("ShiftBits.tla", "ShiftBits_cal2.cfg", expect="violation"), algo("ShiftBits.tla", "ShiftBits_t.cfg", workers=14, tiers=T)],
-        "drivers": [drv("matrix", "debug", shards={"quick": 8, "thorough": 14}, env={"HARNESS_SAMPLE": "2"}, tiers=Q), drv("matrix", "debug", tiers=T), drv("bits", "debug"), drv("bits", "release", tiers=T)],
+        "drivers": [drv("matrix", "debug", shards={"quick": 8, "thorough": 14}, env={"HARNESS_SAMPLE": "2"}, tiers=Q), drv("matrix", "debug", tiers=T), drv("bits", "debug"), drv("bits", "release", tiers=T), drv("bits", "debug", shards={"quick": 6, "thorough": 10}, env={"HARNESS_ROOMY": "1", "HARNESS_SAMPLE": "3"})],
     },
     "C09": {
         "mc": L0_QUICK + L0_THOROUGH + [algo("SmallAlgos.tla", "SmallAlgos_q.cfg"), algo("SmallAlgos.tla", "SmallAlgos_cal_signed_no_sign_test.cfg", expect="violation")],
@@ -126,7 +126,7 @@ PROPS = {
     },
     "C04": {
         "mc": L0_QUICK + L0_THOROUGH,
-        "drivers": [drv("matrix", "debug", shards={"quick": 8, "thorough": 14}, env={"HARNESS_SAMPLE": "2"}, tiers=Q), drv("matrix", "debug", tiers=T), drv("history", "debug"), drv("history", "release", tiers=T),
+        "drivers": [drv("matrix", "debug", shards={"quick": 8, "thorough": 14}, env={"HARNESS_SAMPLE": "2"}, tiers=Q), drv("matrix", "debug", tiers=T), drv("history", "debug"), drv("history", "release", tiers=T), drv("matrix", "debug", shards={"quick": 6, "thorough": 10}, env={"HARNESS_ROOMY": "1", "HARNESS_SAMPLE": "3"}), drv("history", "debug", shards={"quick": 6, "thorough": 10}, env={"HARNESS_ROOMY": "1", "HARNESS_SAMPLE": "2"}),
                     drv("origins", "debug", shards={"quick": 10, "thorough": 14}),
                     # a cross-section of every other family: the representation rule is judged on every register any call writes
                     *[drv(d, "debug", shards={"quick": 2, "thorough": 6}, env={"HARNESS_SAMPLE": "4"}, tiers=Q) for d in
@@ -167,7 +167,7 @@ PROPS = {
     },
     "C10": {
         "mc": L0_QUICK + L0_THOROUGH,
-        "drivers": [drv("matrix", "debug"), drv("forms", "debug"), drv("forms", "release", tiers=T)],
+        "drivers": [drv("matrix", "debug"), drv("forms", "debug"), drv("forms", "release", tiers=T), drv("forms", "debug", shards={"quick": 6, "thorough": 10}, env={"HARNESS_ROOMY": "1", "HARNESS_SAMPLE": "3"}), drv("matrix", "debug", shards={"quick": 6, "thorough": 10}, env={"HARNESS_ROOMY": "1", "HARNESS_SAMPLE": "3"})],
     },
     "C16": {
         "mc": [],
